@@ -220,3 +220,123 @@ Proof. split; vm_compute; reflexivity. Qed.
 (* an empty duty would panic on CommitteeIndices()[0]; MergeDuties never builds one *)
 Lemma empty_duty_panics : forall g s held, attest g (empty_mduty s) held = Panic.
 Proof. reflexivity. Qed.
+
+(* ------------------------------------------------------------------------------------------- *)
+(* one merged duty per slot, in slot order                                                       *)
+From Coq Require Import Sorting.Sorted.
+
+Lemma in_insert_duty : forall x y l, In x (insert_duty y l) <-> x = y \/ In x l.
+Proof.
+  intros x y. induction l as [|z l IH]; cbn; [intuition congruence|].
+  destruct (aduty_le y z); cbn; [intuition congruence|]. rewrite IH. intuition congruence.
+Qed.
+
+Lemma in_sort_duties : forall x l, In x (sort_duties l) <-> In x l.
+Proof.
+  unfold sort_duties. intros x. induction l as [|y l IH]; cbn [fold_right]; [tauto|].
+  rewrite in_insert_duty, IH. cbn. intuition congruence.
+Qed.
+
+Lemma aduty_le_slot : forall x y, aduty_le x y = true -> ad_slot x <= ad_slot y.
+Proof.
+  intros x y. unfold aduty_le.
+  destruct (ad_slot x <? ad_slot y) eqn:E1; [intros _; apply N.ltb_lt in E1; lia|].
+  destruct (ad_slot y <? ad_slot x) eqn:E2; [discriminate|].
+  intros _. apply N.ltb_ge in E1, E2. lia.
+Qed.
+
+Lemma aduty_le_false_slot : forall x y, aduty_le x y = false -> ad_slot y <= ad_slot x.
+Proof.
+  intros x y. unfold aduty_le.
+  destruct (ad_slot x <? ad_slot y) eqn:E1; [discriminate|].
+  intros _. apply N.ltb_ge in E1. exact E1.
+Qed.
+
+Lemma insert_duty_sorted : forall x l,
+  StronglySorted N.le (map ad_slot l) -> StronglySorted N.le (map ad_slot (insert_duty x l)).
+Proof.
+  intros x. induction l as [|y l IH]; intro H; cbn [insert_duty map].
+  - constructor; constructor.
+  - inversion H as [|? ? Hs Hf]; subst. destruct (aduty_le x y) eqn:E; cbn [map].
+    + constructor; [exact H|]. apply aduty_le_slot in E. constructor; [exact E|].
+      eapply Forall_impl; [|exact Hf]. cbn. intros; lia.
+    + constructor; [apply IH; exact Hs|].
+      apply Forall_forall. intros s Hin. apply in_map_iff in Hin as (d & <- & Hd). apply in_insert_duty in Hd as [->|Hd].
+      * apply aduty_le_false_slot. exact E.
+      * rewrite Forall_forall in Hf. apply Hf. apply in_map. exact Hd.
+Qed.
+
+Lemma sort_duties_sorted : forall l, StronglySorted N.le (map ad_slot (sort_duties l)).
+Proof.
+  unfold sort_duties. induction l as [|x l IH]; cbn [fold_right]; [constructor|]. apply insert_duty_sorted. exact IH.
+Qed.
+
+Definition desc (l : list mduty) : Prop := StronglySorted (fun a b => b < a) (map md_slot l).
+
+Lemma add_to_slot : forall d m, md_slot (add_to d m) = md_slot m.
+Proof. reflexivity. Qed.
+
+Lemma group_desc : forall ds acc,
+  StronglySorted N.le (map ad_slot ds) -> desc acc ->
+  match acc with m :: _ => Forall (fun d => md_slot m <= ad_slot d) ds | [] => True end ->
+  desc (group ds acc).
+Proof.
+  induction ds as [|d ds IH]; intros acc Hs Hd Hh; [exact Hd|].
+  cbn [map] in Hs. inversion Hs as [|? ? Hs' Hf]; subst.
+  assert (Hf' : Forall (fun d' => ad_slot d <= ad_slot d') ds).
+  { apply Forall_forall. intros d' Hin. rewrite Forall_forall in Hf. apply Hf. apply in_map. exact Hin. }
+  cbn [group]. destruct acc as [|m acc'].
+  - apply IH; [exact Hs' | |exact Hf']. unfold desc. cbn. constructor; constructor.
+  - inversion Hh as [|? ? Hmd Hmds]; subst. destruct (md_slot m =? ad_slot d) eqn:E.
+    + apply IH; [exact Hs' | exact Hd | exact Hmds].
+    + apply N.eqb_neq in E. apply IH; [exact Hs' | | exact Hf'].
+      unfold desc in *. cbn [map] in *. constructor; [exact Hd|].
+      inversion Hd as [|? ? _ Hfm]; subst. constructor; [cbn; lia|].
+      eapply Forall_impl; [|exact Hfm]. cbn. intros; lia.
+Qed.
+
+Lemma SSorted_app {A} (R : A -> A -> Prop) : forall l1 l2,
+  StronglySorted R l1 -> StronglySorted R l2 -> (forall x y, In x l1 -> In y l2 -> R x y) ->
+  StronglySorted R (l1 ++ l2).
+Proof.
+  induction l1 as [|a l1 IH]; intros l2 H1 H2 H; [exact H2|].
+  inversion H1 as [|? ? Hs Hf]; subst. cbn. constructor.
+  - apply IH; [exact Hs | exact H2 | intros x y Hx Hy; apply H; [right; exact Hx | exact Hy]].
+  - apply Forall_app. split; [exact Hf|]. apply Forall_forall. intros y Hy. apply H; [left; reflexivity | exact Hy].
+Qed.
+
+Lemma SSorted_rev {A} (R : A -> A -> Prop) : forall l,
+  StronglySorted R l -> StronglySorted (fun a b => R b a) (rev l).
+Proof.
+  induction l as [|a l IH]; intro H; [constructor|].
+  inversion H as [|? ? Hs Hf]; subst. cbn [rev]. apply SSorted_app; [apply IH; exact Hs | constructor; constructor|].
+  intros x y Hx [<-|[]]. apply in_rev in Hx. rewrite Forall_forall in Hf. apply Hf. exact Hx.
+Qed.
+
+Lemma merge_slots_increasing : forall ds, StronglySorted N.lt (map md_slot (merge ds)).
+Proof.
+  intro ds. destruct ds as [|d ds]; [constructor|].
+  rewrite merge_unfiltered by discriminate. rewrite map_rev.
+  apply (SSorted_rev (fun a b => b < a)). apply group_desc; [apply sort_duties_sorted | constructor | exact I].
+Qed.
+
+Lemma group_slots : forall ds acc s,
+  In s (map md_slot (group ds acc)) <-> In s (map md_slot acc) \/ In s (map ad_slot ds).
+Proof.
+  induction ds as [|d ds IH]; intros acc s; [cbn; tauto|].
+  cbn [group]. destruct acc as [|m acc'].
+  - rewrite IH. cbn. tauto.
+  - destruct (md_slot m =? ad_slot d) eqn:E; rewrite IH; cbn [map In]; rewrite ?add_to_slot; cbn [empty_mduty md_slot].
+    + apply N.eqb_eq in E. intuition congruence.
+    + tauto.
+Qed.
+
+(* the merged duties cover exactly the slots that have a duty *)
+Lemma merge_slots : forall ds s, In s (map md_slot (merge ds)) <-> In s (map ad_slot ds).
+Proof.
+  intros ds s. destruct ds as [|d ds]; [cbn; tauto|].
+  rewrite merge_unfiltered by discriminate. rewrite map_rev, <- in_rev, group_slots.
+  split.
+  - intros [H|H]; [destruct H|]. apply in_map_iff in H as (x & <- & Hx). apply (proj1 (in_sort_duties x _)) in Hx. apply in_map. exact Hx.
+  - intro H. right. apply in_map_iff in H as (x & <- & Hx). apply in_map. apply (proj2 (in_sort_duties x _)). exact Hx.
+Qed.
